@@ -69,7 +69,9 @@ File(ev) == Chk(ev.out = "ok" /\ ev.len = ev.size /\ ev.eq = 1, "load_file(save_
 Dir(ev) == /\ Chk(ToSet(ev.listed) = ToSet(ev.created) /\ Len(ev.listed) = Cardinality(ToSet(ev.created)),
                   "list_directory does not return exactly the entry names present")
            /\ Chk(ev.sorted = ev.listed, "list_directory_sorted") /\ Keep
-RmTree(ev) == Chk(ev.out = "ok" /\ ev.exists = 0, "recursive unlink left part of the tree behind") /\ Keep
+RmTree(ev) == /\ Chk(ev.out = "ok" /\ ev.exists = 0, "recursive unlink left part of the tree behind")
+              /\ Chk(ev.outside = 1, "recursive unlink followed a symbolic link and removed files OUTSIDE the tree")
+              /\ Keep
 Paths(ev) ==
   LET G(i) == /\ ev.base[i] = Basename(ev.ins[i]) /\ ev.dir[i] = Dirname(ev.ins[i])
               /\ (LastSlash(ev.ins[i]) # 0 => ev.dir[i] \o <<SLASH>> \o ev.base[i] = ev.ins[i]) IN
